@@ -126,23 +126,23 @@ Proof.
     destruct (sender_known s p) as [pe|] eqn:Esk.
     2:{ simpl. split; [reflexivity|]. constructor; [reflexivity | apply (inv_reg _ _ I) | exact Hb1]. }
     destruct (sender_known_ski _ _ _ Esk) as [Hski _].
-    rewrite remove_binding_eq in *. unfold bind_del in *.
+    rewrite remove_binding_eq in *. unfold bind_del in *. rewrite Hski in *.
     destruct (remote_feature pe (rc_cli c)) as [[en rf]|].
     2:{ cbn [fst snd] in *. split; [apply fail_verdict|]. constructor; [reflexivity | apply (inv_reg _ _ I) | exact Hb1]. }
     destruct (local_feature s (rc_srv c)) as [sf|].
     2:{ cbn [fst snd] in *. split; [apply fail_verdict|]. constructor; [reflexivity | apply (inv_reg _ _ I) | exact Hb1]. }
     rewrite (inv_reg _ _ I).
-    rewrite (existsb_abs _ (hit_e (default_dev pe (rc_cli c)) sf)) by (intros x; apply hit_strip).
+    rewrite (existsb_abs _ (hit_e p (default_dev pe (rc_cli c)) sf)) by (intros x; apply hit_strip).
     rewrite <- !andb_assoc in *.
-    rewrite (del_tests s sf (default_dev pe (rc_cli c)) (rf_addr en rf) (bi_single _ (inv_b _ _ I))) in *.
+    rewrite (del_tests s sf p (default_dev pe (rc_cli c)) (rf_addr en rf) (bi_single _ (inv_b _ _ I))) in *.
     rewrite (andb_comm (eqb_faddr (default_dev pe (rc_cli c)) (rf_addr en rf))
                        (role_type_ok (lf_role sf) (lf_type sf) RServer (lf_type sf) && _)).
     rewrite <- !andb_assoc.
-    rewrite (andb_comm (existsb (hit_e (default_dev pe (rc_cli c)) sf) (binds s))
+    rewrite (andb_comm (existsb (hit_e p (default_dev pe (rc_cli c)) sf) (binds s))
                        (eqb_faddr (default_dev pe (rc_cli c)) (rf_addr en rf))).
     match goal with |- context [if ?b then _ else _] => destruct b end.
     + cbn [fst snd] in *. split.
-      * rewrite Hski. apply ok_verdict.
+      * rewrite ?Hski. apply ok_verdict.
       * constructor; simpl; [reflexivity | | exact Hb1].
         apply filter_abs. intros x. rewrite hit_strip. reflexivity.
     + cbn [fst snd] in *. split; [apply fail_verdict|]. constructor; [reflexivity | reflexivity | exact Hb1].
@@ -175,13 +175,14 @@ Theorem entries_owned ops : forall e, In e (binds (fst (run init ops))) ->
 Proof. destruct (si_ok _ (bi_s _ (binv_run ops init binv_init))) as [_ H]. exact H. Qed.
 
 (* a delete leaves every other binding in place: the registry after an accepted delete is the
-   registry before minus the entries on the addressed (client address, server feature) pair,
+   registry before minus the entries OF THE CALLING CONNECTION on the addressed (client address,
+   server feature) pair,
    and a refused delete changes nothing *)
 Theorem delete_exact s p ctr ack c :
   let s1 := fst (step s (BindDelete p ctr ack c)) in
   binds s1 = binds s \/
   exists pe sf, sender_known s p = Some pe /\ local_feature s (rc_srv c) = Some sf /\
-    binds s1 = filter (fun x => negb (hit_e (default_dev pe (rc_cli c)) sf x)) (binds s).
+    binds s1 = filter (fun x => negb (hit_e (p_ski pe) (default_dev pe (rc_cli c)) sf x)) (binds s).
 Proof.
   cbn [step]. rewrite registry_call_eq. destruct (sender_known s p) as [pe|] eqn:Esk; [|left; reflexivity].
   rewrite remove_binding_eq. unfold bind_del.
